@@ -2,6 +2,7 @@
 # notes/try_mut.sh <Cxx> <seed id> — apply seeded/<id>/patch.diff to /repo, run ./check Cxx, undo
 P=$1; ID=$2
 cd /verif
+export VERIF_EVIDENCE_DIR=/tmp/seeded_evidence
 git -C /repo apply /verif/seeded/$ID/patch.diff || { echo "patch does not apply"; exit 1; }
 ./check $P > /tmp/check_$ID.log 2>&1; echo "exit=$?" >> /tmp/check_$ID.log; grep -E "VIOLATION|KNOWN|\[check\] C|exit=" /tmp/check_$ID.log
 git -C /repo checkout -- . ; git -C /repo status --short | head -3
